@@ -1,6 +1,7 @@
 import ScrapliModel.Lemmas.PrivSession
 import ScrapliModel.Lemmas.PrivFault
 import ScrapliModel.PrivOptions
+import ScrapliModel.Lemmas.PrivScript
 import ScrapliModel.Generated.Consts
 import ScrapliModel.Lemmas.BodiesPriv
 /-!
@@ -503,6 +504,55 @@ theorem explicit_target_is_op_level (c : Cfg) (pre post : List Opt) (x : Bytes) 
 follows it -/
 example : newOperationWith { onNil := .next, onIgnored := .brk, onReal := .retErr }
     [.ignored, .level [120]] [] = .ok [] := rfl
+
+/-! ## between the operations: `GetPrompt`, refused operations, reconfiguration (`PrivScript.lean`) -/
+
+/-- `GetPrompt` on the network driver: one bare return reaches the device in its current mode, the
+prompt of that mode comes back, nothing is navigated and the invariant is kept -/
+theorem getPrompt_spec {c : Cfg} {s : Sess} (hi : Inv c s) :
+    getPrompt c s = (c.promptOf s.dev.mode,
+      { s with dev := { s.dev with log := s.dev.log ++ [(s.dev.mode, [])] } }) ∧
+    Inv c (getPrompt c s).2 :=
+  ⟨getPrompt_eq c s hi.atPrompt, getPrompt_inv hi⟩
+
+/-- `undeterminable_prompt_refused`: the device shows a prompt that no configured level accepts
+(a mode outside the map, or every matching pattern vetoed by its not-contains): `AcquirePriv` reads
+the prompt with one bare return and fails with a privilege error; no transition command is sent,
+the cache is not touched -/
+theorem undeterminable_prompt_refused {c : Cfg} (ho : ∀ t, (c.orc t).Valid) (s : Sess) {tgt : Bytes}
+    (haw : s.dev.awaiting = none) (ht : tgt ∈ names c.L)
+    (h : undeterminable c s.dev.mode = true) :
+    acquirePriv c tgt s = (some .privilege,
+      { s with dev := { s.dev with log := s.dev.log ++ [(s.dev.mode, [])] }, tick := s.tick + 1 }) :=
+  acquirePriv_undeterminable ho s haw ht h
+
+/-- an option that returns a real error makes `NewOperation` fail, wherever it stands after options
+that do not fail: the operation is refused before anything is sent -/
+theorem bad_option_refused (pre post : List Opt) (hpre : ∀ o ∈ pre, o ≠ Opt.bad) :
+    newOperation (pre ++ Opt.bad :: post) = .error () := by
+  rw [newOperationWith_ok_table]
+  generalize ([] : Bytes) = lvl
+  induction pre generalizing lvl with
+  | nil => simp [newOperationWith]
+  | cons o os ih =>
+    have hos := fun o' h' => hpre o' (List.mem_cons_of_mem _ h')
+    cases o with
+    | level y => simp only [List.cons_append, newOperationWith]; exact ih hos y
+    | ignored => simp only [List.cons_append, newOperationWith]; exact ih hos lvl
+    | bad => exact absurd rfl (hpre .bad (by simp))
+
+/-- `script_coherent`: sessions that mix the five operations with `GetPrompt`, refused operations
+and RECONFIGURATIONS between operations (levels added / removed / re-patterned + `UpdatePrivileges`,
+`DefaultDesiredPriv` reassigned, secret changed) keep the invariant with respect to the scenario in
+force, provided each new scenario is inside the hypotheses and still describes the state
+(`ScriptOK`). Hence (`commands_at_default_configs_at_target` for the scenario in force) the next
+operation delivers its payload at ITS level under the NEW tree / default. -/
+theorem script_coherent (items : List Item) (c : Cfg) (s : Sess) (hd : Dom c)
+    (hdef : c.default ∈ names c.L) (hi : Inv c s) (hok : ScriptOK c s items) :
+    Dom (runScript c s items).2.1 ∧
+    (runScript c s items).2.1.default ∈ names (runScript c s items).2.1.L ∧
+    Inv (runScript c s items).2.1 (runScript c s items).2.2 :=
+  runScript_inv items c s hd hdef hi hok
 
 /-! ## tie to the source: translated body = model (regenerated on every run) -/
 
